@@ -7,6 +7,7 @@ export CARGO_NET_OFFLINE=true
 mkdir -p .cache evidence replays
 for c in core; do
   cp /repo/Cargo.lock kani/$c/Cargo.lock
+  [ -f kani/$c/gen.py ] && python3 kani/$c/gen.py >/dev/null
   (cd kani/$c && cargo kani -Z stubbing -Z unstable-options --target-dir ../../.cache/${c}0 --only-codegen --harness h_basic::c12_lease_word --exact > ../../.cache/setup_$c.log 2>&1) || { tail -30 .cache/setup_$c.log; exit 1; }
 done
 python3 tools/gen_manifest.py >/dev/null
